@@ -25,6 +25,23 @@ import (
 
 var errSentinel = errors.New("simulated read error")
 
+// the error a failing reader returns is varied: a change that special-cases
+// one error kind as "end of input" must not go unnoticed
+func readErrorFor(seed uint64) error {
+	switch seed % 5 {
+	case 0:
+		return errSentinel
+	case 1:
+		return io.ErrUnexpectedEOF
+	case 2:
+		return fmt.Errorf("wrapped: %w", io.ErrUnexpectedEOF)
+	case 3:
+		return io.ErrClosedPipe
+	default:
+		return fmt.Errorf("wrapped: %w", io.EOF)
+	}
+}
+
 type simReader struct {
 	data     []byte
 	pos      int
@@ -36,6 +53,7 @@ type simReader struct {
 	dataEOF  bool // deliver the last chunk together with io.EOF
 	st       *Stats
 	splitRun bool
+	err      error
 }
 
 func (r *simReader) Read(p []byte) (int, error) {
@@ -54,7 +72,7 @@ func (r *simReader) Read(p []byte) (int, error) {
 	if r.pos >= limit {
 		if r.errAt >= 0 && r.pos >= r.errAt {
 			r.st.Fault("rd_error")
-			return 0, errSentinel
+			return 0, r.err
 		}
 		return 0, io.EOF
 	}
@@ -84,7 +102,7 @@ func (r *simReader) Read(p []byte) (int, error) {
 	if r.pos >= limit {
 		if r.errAt >= 0 && r.errWith {
 			r.st.Fault("rd_error")
-			return n, errSentinel
+			return n, r.err
 		}
 		if r.errAt < 0 && r.dataEOF {
 			r.st.Fault("rd_data_eof")
@@ -103,6 +121,9 @@ type RFCase struct {
 	At    int    `json:"at,omitempty"`
 	Style int    `json:"style,omitempty"`
 	Entry string `json:"entry,omitempty"` // parse | run | compile | eval
+	// Invalid: the text contains a construct that is a syntax error or parse-time
+	// early error by construction; it must be rejected through every route
+	Invalid bool `json:"invalid,omitempty"`
 }
 
 type rfEngine struct{}
@@ -418,6 +439,7 @@ func (e rfEngine) Exec(ci interface{}, st *Stats) (*Violation, interface{}, bool
 		r.zeros = int(seed % 3)
 		r.dataEOF = seed%2 == 0
 		r.errWith = seed%4 == 1
+		r.err = readErrorFor(seed / 7)
 		return r
 	}
 
@@ -575,7 +597,40 @@ func (e rfEngine) Exec(ci interface{}, st *Stats) (*Violation, interface{}, bool
 		return nil, nil, true
 	}
 
+	doInvalid := func() (*Violation, interface{}, bool) {
+		rc := mk("invalid", len(T), 1, "parse")
+		rc.Invalid = true
+		st.Fault("invalid_by_construction")
+		for _, src := range []interface{}{c.Text, newReader(T, 1, -1, c.Seed)} {
+			st.Runs++
+			got := doParse(src)
+			if got.panicked != "" {
+				return fail("parse_panic", "parse-panic", rc, "parser panicked on a text that is invalid by construction: %s", got.panicked)
+			}
+			if got.errStr == "" {
+				return fail("invalid_source_accepted", "", rc, "a text containing a construct that ES5 forbids at parse time was accepted (%T source)", src)
+			}
+		}
+		for _, entry := range []string{"run", "compile", "eval"} {
+			st.Runs++
+			got := doRun(entry, newReader(T, 2, -1, c.Seed+3))
+			if got.panicked != "" {
+				return fail("run_panic_on_rejected_source", "", rc, "%s panicked on a text that is invalid by construction: %s", entry, got.panicked)
+			}
+			if got.err == "" {
+				return fail("rejected_source_ran", "", rc, "%s returned no error for a text that is invalid by construction", entry)
+			}
+			if len(got.trace) != 0 || got.state != "unchanged" {
+				return fail("rejected_source_side_effect", "", rc, "%s of a text that is invalid by construction made %d host calls, global state %s", entry, len(got.trace), got.state)
+			}
+		}
+		st.NonTrivial++
+		return nil, nil, true
+	}
+
 	switch c.Kind {
+	case "invalid":
+		return doInvalid()
 	case "cut", "tree":
 		if c.Entry == "" || c.Entry == "parse" {
 			return doCut(min(c.At, len(T)), c.Style)
@@ -587,6 +642,11 @@ func (e rfEngine) Exec(ci interface{}, st *Stats) (*Violation, interface{}, bool
 		return doChunk(c.Style, c.Entry, c.Seed+uint64(c.At))
 	}
 
+	if c.Invalid {
+		if v, rc, _ := doInvalid(); v != nil {
+			return v, rc, true
+		}
+	}
 	// sweep: every cut point (exhaustive per text), sampled run-level checks
 	for n := 0; n <= len(T); n++ {
 		if v, rc, _ := doCut(n, rng.Intn(4)); v != nil {
@@ -707,6 +767,24 @@ var syntaxZoo = []string{
 	"x='é€𝄞 漢字  ';",
 }
 
+// constructs that ES5 rejects at parse time (syntax errors and the early errors
+// the property lists); complete statements can stand between two valid programs
+var invalidAnywhere = []string{
+	"break;", "continue;", "return 1;", "for(;;){break nolabel;}", "for(;;){continue nolabel;}", "L1:L1:;", "X:{(function(){break X;})()}",
+	"Y:{continue Y;}", "1=2;", "a+b=c;", "++1;", "try{}", "var if=1;", "var v\\u0061r=1;", "function if(){}", "x=/(?/;", "x=/[/;",
+	"x={get a b(){}};", "switch(1){default:default:}", "({ # : 1 });", "@;", "a b;", "var 1a;", "function(){}", "else;", "catch(e){}", "case 1:;",
+	"new;", "x=;", ");", "}", "]", "throw\n1;", "var a=;", "a?b;", "a?b:;", "this=1;", "for(1 in o);", "({a:1,,b:2});", "x=\"\\u12\";", "x='\\x1';",
+	"if(1)else;", "x=a+;", "x=typeof;", "var x,;", "x={a};", "x={a:};", "x=[1 2];", "label:label:x;", "x=a..b;", "x=.;", "tru\\u0065=0;", "var \\u0069f;",
+	"x=\"abc\n\";", "x=1e;", "x=0x;",
+}
+
+// incomplete constructs: only at the very end of a text
+var invalidSuffix = []string{
+	"x='unterminated", "/* unterminated", "if(", "for(;;", "with(", "[1,2", "for(var i=0;i<1;i++", "function f(){", "x={", "x=(1", "x=[", "switch(1){case",
+	"try{}catch", "try{}catch(", "try{}catch(e", "try{}catch(e)", "try{}finally", "if(1){}else", "do{}while(", "x=function(", "new f(", "x=a?", "var", "var x=", "x.",
+	"x[", "x=!", "delete", "void", "typeof", "x=y+", "x=y,", "throw", "'\\", "x={'unterminated:1};", "do;while", "(",
+}
+
 func (rfEngine) Gen(t *rapid.T, tier string) interface{} {
 	c := &RFCase{Engine: "readerfault"}
 	c.Seed = rapid.Uint64().Draw(t, "seed")
@@ -731,6 +809,20 @@ func (rfEngine) Gen(t *rapid.T, tier string) interface{} {
 	c.Text = b.String()
 	if len(c.Text) > 1500 {
 		c.Text = c.Text[:1500]
+	}
+	if len(c.Text) < 1500 && rapid.IntRange(0, 2).Draw(t, "invalid?") == 2 {
+		// invalid by construction: a forbidden construct after (and possibly before) valid programs
+		c.Invalid = true
+		if rapid.Bool().Draw(t, "suffix") {
+			c.Text += "\n" + invalidSuffix[rapid.IntRange(0, len(invalidSuffix)-1).Draw(t, "badsuffix")]
+		} else {
+			bad := invalidAnywhere[rapid.IntRange(0, len(invalidAnywhere)-1).Draw(t, "bad")]
+			if rapid.Bool().Draw(t, "before") {
+				c.Text = bad + "\n" + c.Text
+			} else {
+				c.Text += "\n" + bad + "\nvar after=1;\n"
+			}
+		}
 	}
 	return c
 }
